@@ -407,12 +407,14 @@ def do_request(host, port, req, deadline, hold=None, stuck_probe=None):
 
 
 STARVE_S = float(os.environ.get("VERIF_HTTP_STARVE_S", "10"))
-RESP_S = float(os.environ.get("VERIF_HTTP_RESP_S", "20"))
+RESP_S = float(os.environ.get("VERIF_HTTP_RESP_S", "30"))
 
 
-def request_worker_stuck(baseline):
-    """a per-request worker thread of the server is alive and inside vinegar's request handling"""
+def _blocked_workers(baseline):
+    """request worker threads of the server that are inside vinegar's request handling and, at this instant, blocked
+    in a receive on their connection: {thread name: stack}"""
     frames = sys._current_frames()
+    out = {}
     for t in new_threads(baseline):
         if "process_request_thread" not in t.name:
             continue
@@ -421,9 +423,24 @@ def request_worker_stuck(baseline):
         while f is not None:
             names.append(f.f_code.co_name)
             f = f.f_back
-        if "_delegate_request" in names:
-            return {"thread": t.name, "stack": names[:10]}
-    return None
+        if "_delegate_request" in names and names and names[0] in ("readinto", "recv_into", "read", "readline", "peek"):
+            out[t.name] = names[:10]
+    return out
+
+
+def request_worker_stuck(baseline):
+    """positive evidence that a response is not going to come: a request worker of the server is waiting for MORE
+    INPUT from a client that has long sent everything (blocked in a receive inside the request handling, the same
+    thread at two instants one second apart). A merely slow machine shows workers that are running, not blocked."""
+    a = _blocked_workers(baseline)
+    if not a:
+        return None
+    time.sleep(1.0)
+    b = _blocked_workers(baseline)
+    both = [n for n in a if n in b]
+    if not both:
+        return None
+    return {"thread": both[0], "stack": b[both[0]]}
 
 
 def serving_thread_busy_with_a_request(baseline):
